@@ -36,7 +36,7 @@ type c14Case struct {
 
 func (c *c14Case) Key() string { return core.KeyOf(c) }
 
-var c14TitleVals = []string{"str_x", "str_empty", "int0", "int1", "false", "true", "nil", "missing", "str_false", "float64_0", "uint8_0"}
+var c14TitleVals = []string{"str_x", "str_empty", "int0", "int1", "false", "true", "nil", "missing", "str_false", "float64_0", "uint8_0", "float_small", "float_huge", "float_frac", "uint64_max", "int64_min", "float32_third"}
 
 func c14Data() map[string]any {
 	d := map[string]any{"w": "W", "sx": "SX", "cv": "b1 b2", "t": true, "f": false, "one": 1, "zero": 0, "col": "blue", "ss": "color: blue; top: 0", "cnt": 3, "nilv": nil}
@@ -534,7 +534,7 @@ func init() {
 	core.Register(&core.Check{
 		ID:    "C14",
 		Level: "exploration",
-		Rule: "one element carrying every combination of: static / interpolated title x title bound to 11 values of every truthiness (and v-bind:) x static class x 5 bound class forms (string, objects with bare/single-quoted/double-quoted/hyphenated keys and truthy/falsy/nil/undefined values) x static style x 3 bound style forms (camelCase object, custom property object, string) x v-show {none,true,truthy string,false,0} x directive attributes x 4 bracketed attributes (incl. a mustache value) x both source orders; " +
+		Rule: "one element carrying every combination of: static / interpolated title x title bound to 17 values of every truthiness and with string forms that have several spellings (exponent notation, extreme integers) (and v-bind:) x static class x 5 bound class forms (string, objects with bare/single-quoted/double-quoted/hyphenated keys and truthy/falsy/nil/undefined values) x static style x 3 bound style forms (camelCase object, custom property object, string) x v-show {none,true,truthy string,false,0} x directive attributes x 4 bracketed attributes (incl. a mustache value) x both source orders; " +
 			"plus static style values containing semicolons, colons and quotes (data URLs, quoted strings) x bound style x v-show; plus a reuse part: 13 element forms (v-show with/without static and bound style, bound/interpolated title, :class object/string, :style over static style, v-if / v-else + v-show, v-html / v-text + v-show, boolean attribute) evaluated for every sequence of <=3 values out of 3 in 7 contexts where one source node is evaluated repeatedly (v-for on a parent, <template v-for>, scoped slot inside a component loop, slot used twice per include, component in a loop, component included repeatedly, successive renders on one engine through Load/Render and Vue.Render), oracle: every instance equals the element rendered alone on a fresh engine; " +
 			"oracle: reference attribute model (values, class token list, style property map, static order, no directive/internal attribute in the output, bracketed literal). non-trivial = all with defined semantics",
 		Bounds:      map[string]string{"quick": "full product (528k elements)", "thorough": "same"},
